@@ -95,6 +95,8 @@ def run_shard(spec, R):
             key = known_key(formulation)
             mkey = multilevel_key(formulation, backend, nc)
             opt = wass.make_options(darsia, "newton", "RAVIART_THOMAS", "CELL_BASED", formulation, backend, 0, 4)
+            if (spec["shapes"].index(list(shape)) + ci) % 2 == 0:
+                opt["regularization"] = 1e-7  # a non-default regularisation of the mobility; no part of the linear systems solved here
             opt_before = snap({k: v for k, v in opt.items() if not callable(v)})
             ok, w1 = R.guarded("formulation_usable", lambda: darsia.WassersteinDistanceNewton(grid, None, opt), key=lambda e, w: key)
             if not ok:
